@@ -56,6 +56,8 @@ EDITS = {
         ("da02", "crates/lib/mimium-lang/src/compiler/mirgen.rs", "            self.default_arg_states.extend(states);\n", "", "verus", "mirgen_state"),
         ("da03", "crates/lib/mimium-lang/src/compiler/mirgen.rs", "                let push_sum = ctx.get_ctxdata().push_sum;\n                if push_sum > 0 {\n                    ctx.get_current_basicblock().0.push((\n                        Arc::new(mir::Value::None),\n                        Instruction::PopStateOffset(push_sum),\n                    ));\n                }\n                let _v = ctx.push_inst(Instruction::Return(v, ty));", "                let push_sum = ctx.get_ctxdata().push_sum;\n                if push_sum > 1 {\n                    ctx.get_current_basicblock().0.push((\n                        Arc::new(mir::Value::None),\n                        Instruction::PopStateOffset(push_sum),\n                    ));\n                }\n                let _v = ctx.push_inst(Instruction::Return(v, ty));", "verus", "mirgen_state"),
         ("da04", "crates/lib/mimium-lang/src/compiler/mirgen.rs", "                    [app_state, arg_states, default_states, state].concat(),", "                    [app_state, default_states, arg_states, state].concat(),", "verus", "mirgen_state"),
+        ("mo01", "crates/lib/mimium-lang/src/compiler/mirgen.rs", "        self.program.functions.push(specialized_fn);\n        if let Some(default_args)", "        specialized_fn.state_skeleton = self.program.functions[0].state_skeleton.clone();\n        self.program.functions.push(specialized_fn);\n        if let Some(default_args)", "verus", "mono_layout"),
+        ("mo02", "crates/lib/mimium-lang/src/compiler/mirgen.rs", "        let original_fn = self.program.functions[original_fid.0 as usize].clone();\n        let new_fid", "        let original_fn = self.program.functions[(original_fid.0 as usize).saturating_sub(1)].clone();\n        let new_fid", "verus", "mono_layout"),
         ("lp01", "crates/lib/mimium-lang/src/compiler/mirgen.rs", "                        let child = ctx.program.functions.get_mut(c_idx.0 as usize).unwrap();", "                        let child = ctx.program.functions.get_mut((c_idx.0 as usize).saturating_sub(1)).unwrap();", "verus", "mirgen_state"),
         ("lp02", "crates/lib/mimium-lang/src/compiler/mirgen.rs", "        self.program.functions.push(newf);\n        FunctionId(index as _)", "        self.program.functions.push(newf);\n        FunctionId(self.program.functions.len() as _)", "verus", "mirgen_state"),
         ("lp03", "crates/lib/mimium-lang/src/mir.rs", "            state_skeleton: StateTreeSkeleton::FnCall(state_boxed),", "            state_skeleton: StateTreeSkeleton::FnCall(state_boxed.into_iter().take(1).collect()),", "verus", "mirgen_state"),
@@ -268,6 +270,8 @@ EDITS = {
         ("ss01", "crates/lib/mimium-lang/src/compiler/mirgen/convert_qualified_names.rs", "        let _ = self.local_bindings.pop();", "        let _ = self.local_bindings.pop();\n        let _ = self.local_bindings.pop();", "verus", "resolve_walk"),
         ("ss02", "crates/lib/mimium-lang/src/compiler/mirgen/convert_qualified_names.rs", "        if let Some(scope) = self.local_bindings.last_mut() {\n            scope.insert(symbol);", "        if let Some(scope) = self.local_bindings.first_mut() {\n            scope.insert(symbol);", "verus", "resolve_walk"),
         ("ss03", "crates/lib/mimium-lang/src/compiler/mirgen/convert_qualified_names.rs", "        self.local_bindings.push(HashSet::new());", "        if self.local_bindings.is_empty() { self.local_bindings.push(HashSet::new()); }", "verus", "resolve_walk"),
+        ("tp01", "crates/lib/mimium-lang/src/compiler/typing.rs", "                    && let Some(&is_public) = module_info.visibility_map.get(&resolved_name)\n                    && !is_public\n                {\n                    // Type is private - report error for accessing it from outside", "                    && let Some(&is_public) = module_info.visibility_map.get(&resolved_name)\n                    && is_public\n                {\n                    // Type is private - report error for accessing it from outside", "verus", "type_privacy"),
+        ("tp02", "crates/lib/mimium-lang/src/compiler/typing.rs", "                    if type_path.len() > 1 {\n                        // This is a module member type", "                    if type_path.len() > 2 {\n                        // This is a module member type", "verus", "type_privacy"),
         ("dp01", "crates/lib/mimium-lang/src/compiler/mirgen/convert_qualified_names.rs", "    let loc = ctx.make_location(e_id);\n\n    match e_id.to_expr().clone() {", "    let loc = ctx.make_location(e_id);\n    ctx.push_scope();\n\n    match e_id.to_expr().clone() {", "verus", "resolve_walk"),
         ("dp02", "crates/lib/mimium-lang/src/compiler/mirgen/convert_qualified_names.rs", "        Expr::Literal(_) | Expr::Error => e_id,", "        Expr::Literal(_) | Expr::Error => {\n            ctx.current_module_context.clear();\n            e_id\n        }", "verus", "resolve_walk"),
         ("rw10", "crates/lib/mimium-lang/src/compiler/mirgen/convert_qualified_names.rs", "            let new_rhs = convert_expr(ctx, rhs);", "            let new_rhs = rhs;", "verus", "resolve_walk"),
